@@ -1,5 +1,6 @@
 import Pyunicorn.Lemmas.Nsi
 import Pyunicorn.Lemmas.NsiDist
+import Pyunicorn.Lemmas.NsiBetw
 import Pyunicorn.Model.NsiMeasures
 /-!
 # C02 — Node-splitting invariance of all n.s.i. measures
@@ -138,6 +139,92 @@ example : IsDist pathG 0 2 (some 2) := by
     have := w'.zero_eq; subst this
     simp [pathG] at hab
   | k + 2, _ => omega
+
+/-! ### n.s.i. shortest-path betweenness (round 3): invariance at the level of the definition
+
+`Model/NsiBetw.lean`: `BC*_i = Σ_{s∈S, t∈T, s≠i≠t} w_s w_t · n*_st(i) / (w_i n*_st)` with `n*`
+the weighted count of shortest walks (`wcount` at length `dist s t`).  This is what
+`Network.nsi_betweenness(sources, targets)`, `nsi_interregional_betweenness` and
+`InteractingNetworks.nsi_cross_betweenness` document and what the kernel `_nsi_betweenness`
+computes (tie: exact correspondence of `nsiBetw`, of the kernel model `NetBetw.nsiBetweenness`
+and of the implementation on every generated graph and split copy, `harness/c02.py`). -/
+
+/-- the weighted count really counts walks: it is non-zero only if a walk of that length
+exists … -/
+theorem wcount_ne_zero_walk (G : Gr) (k a b : Nat) (ha : a < G.n) (h : wcount G k a b ≠ 0) :
+    Walk G a b k :=
+  walk_of_wcount_ne_zero G k a b ha h
+
+/-- … and, for positive node weights, positive whenever one exists -/
+theorem wcount_pos_of_walk (G : Gr) (hw : ∀ k, k < G.n → 0 < G.w k) {a b k : Nat}
+    (w : Walk G a b k) : 0 < wcount G k a b :=
+  wcount_pos G hw w
+
+/-- **weighted shortest-path counts of the split graph** (the heart of the proof): walks of
+minimal length never use the twin–twin link, so `n'*(a,b) · w_{c b} = n*(c a, c b) · w'_b` -/
+theorem shortest_path_counts_split (G : Gr) (v : Nat) (p : Rat) (hv : v < G.n)
+    (hloop : ∀ i, G.adj i i = false) (a b k : Nat) (ha : a < G.n + 1) (hb : b < G.n + 1)
+    (hmin : ∀ j, j < k + 1 → ¬ Walk G (collapse G.n v a) (collapse G.n v b) j) :
+    wcount (split G v p) (k + 1) a b * G.w (collapse G.n v b)
+      = wcount G (k + 1) (collapse G.n v a) (collapse G.n v b) * (split G v p).w b :=
+  wcount_split G v p hv hloop b hb k a ha hmin
+
+/-- **Node-splitting invariance of n.s.i. betweenness, full statement.**  For every loop-free
+graph with positive node weights whose `dist` is its shortest-path length, every node `v`,
+every proportion `0 < p < 1`, all source and target sets `S`, `T` (the twin joins `v`'s sets)
+and *every* node `a` of the split graph — untouched node or either twin — the n.s.i.
+betweenness of `a` in the split graph is that of `collapse a` in the original graph.  The
+twin–twin pairs are included: no shortest path between a twin and another node passes through
+the other twin (`bcTerm_twin_left/right`). -/
+theorem nsi_betweenness_split (G : Gr) (v : Nat) (p : Rat) (hv : v < G.n) (hp0 : 0 < p)
+    (hp1 : p < 1) (hw : ∀ k, k < G.n → 0 < G.w k) (hloop : ∀ i, G.adj i i = false)
+    (hd : ∀ a b, a < G.n → b < G.n → IsDist G a b (G.dist a b))
+    (S T : Nat → Bool) (a : Nat) (ha : a < G.n + 1) :
+    nsiBetw (split G v p) (fun k => S (collapse G.n v k)) (fun k => T (collapse G.n v k)) a
+      = nsiBetw G S T (collapse G.n v a) :=
+  nsiBetw_split_lemma G v p hv hp0 hp1 hw hloop hd S T a ha
+
+/-- per-node form: untouched nodes keep their betweenness, both twins carry `v`'s -/
+theorem nsi_betweenness_split_nodes (G : Gr) (v : Nat) (p : Rat) (hv : v < G.n) (hp0 : 0 < p)
+    (hp1 : p < 1) (hw : ∀ k, k < G.n → 0 < G.w k) (hloop : ∀ i, G.adj i i = false)
+    (hd : ∀ a b, a < G.n → b < G.n → IsDist G a b (G.dist a b)) (S T : Nat → Bool) :
+    (∀ i, i < G.n → nsiBetw (split G v p) (fun k => S (collapse G.n v k))
+        (fun k => T (collapse G.n v k)) i = nsiBetw G S T i) ∧
+    nsiBetw (split G v p) (fun k => S (collapse G.n v k)) (fun k => T (collapse G.n v k)) G.n
+      = nsiBetw G S T v := by
+  constructor
+  · intro i hi
+    have := nsi_betweenness_split G v p hv hp0 hp1 hw hloop hd S T i (by omega)
+    rwa [collapse_lt _ _ _ hi] at this
+  · have := nsi_betweenness_split G v p hv hp0 hp1 hw hloop hd S T G.n (by omega)
+    rwa [collapse_self] at this
+
+/-- the plain `nsi_betweenness()` (all nodes are sources and targets) -/
+theorem nsi_betweenness_all_split (G : Gr) (v : Nat) (p : Rat) (hv : v < G.n) (hp0 : 0 < p)
+    (hp1 : p < 1) (hw : ∀ k, k < G.n → 0 < G.w k) (hloop : ∀ i, G.adj i i = false)
+    (hd : ∀ a b, a < G.n → b < G.n → IsDist G a b (G.dist a b)) (a : Nat) (ha : a < G.n + 1) :
+    nsiBetw (split G v p) (fun _ => true) (fun _ => true) a
+      = nsiBetw G (fun _ => true) (fun _ => true) (collapse G.n v a) :=
+  nsi_betweenness_split G v p hv hp0 hp1 hw hloop hd (fun _ => true) (fun _ => true) a ha
+
+/-- the breadth-first layers from which the driver computes its own distances are exactly the
+walks: entry `a` of `toSet G b k` is set iff there is a walk of length `k` from `a` to `b` -/
+theorem bfs_layers_are_walks (G : Gr) (b k a : Nat) (ha : a < G.n) :
+    (toSet G b k).getD a false = true ↔ Walk G a b k :=
+  toSet_walk G b k a ha
+
+/-- non-vacuity: on the path 0–1–2 with weights 1, 2, 3 the middle node has n.s.i.
+betweenness `2 · w_0 w_2 / w_1 = 3`, before and after splitting it -/
+def pathGd : Gr :=
+  { n := 3, adj := fun i j => (i, j) ∈ [(0, 1), (1, 0), (1, 2), (2, 1)],
+    w := fun k => [1, 2, 3].getD k 0, la := fun _ _ _ => 0, grp := fun _ _ => false,
+    dist := fun i j => if i = j then some 0 else if i + j = 2 then some 2 else some 1 }
+
+example : nsiBetw pathGd (fun _ => true) (fun _ => true) 1 = 3 ∧
+    nsiBetw (split pathGd 1 (1/4)) (fun _ => true) (fun _ => true) 1 = 3 ∧
+    nsiBetw (split pathGd 1 (1/4)) (fun _ => true) (fun _ => true) 3 = 3 ∧
+    nsiBetw (split pathGd 1 (1/4)) (fun _ => true) (fun _ => true) 0 = 0 := by
+  decide +kernel
 
 /-! ### the measures of the library are expressions: invariance of each, by name -/
 
